@@ -553,6 +553,11 @@ def grow_program(rng, sc, n, steps, ops, pre=None):
             i = late_left.pop(0)
             step = ("add", i, rng.choice(["obj", "dict", "settings"]))
             dirty.add(i)
+        elif op == "readd" and hexobj and sh.active:
+            # registering an indicator that is already registered (e.g. re-applying the Hexital's own
+            # indicator settings): a fresh object over candles that already carry its readings
+            i = rng.choice(list(sh.active))
+            step = ("add", i, rng.choice(["obj", "dict", "settings"]))
         elif op == "remove" and hexobj and len(sh.active) > 1:
             tgt = rng.choice(names)
             step = ("remove", tgt)
@@ -573,7 +578,7 @@ def grow_program(rng, sc, n, steps, ops, pre=None):
 
 
 MAINT_OPS = ["append", "append", "append", "calculate", "purge", "recalculate", "calculate_index",
-             "calculate_index", "add", "remove"]
+             "calculate_index", "add", "remove", "readd"]
 
 
 def fam_maintenance(rng, pid, count):
@@ -677,8 +682,17 @@ def fam_interference(rng, pid, count):
             cfgs[flagged].extra = dict(cfgs[flagged].extra, timeframe_fill=True)
             for c in cfgs:      # the same timeframe, spelled differently by each member
                 c.extra = dict(c.extra, _tf_form=rng.choice(["upper", "lower", "enum"]))
+        elif t % 3 == 2 and len(cfgs) >= 2:
+            # every member on its own timeframe (one may stay on the base candles): each gets its own
+            # manager, built from the candles the Hexital already holds when they are registered together
+            ladder = rng.choice([["S10", "S30", "T1"], ["T1", "T5", "T15"], ["T5", "T10", "T15"], ["S5", "S10", "S30"]])
+            picks = rng.sample(ladder, min(len(ladder), len(cfgs)))
+            if rng.random() < 0.3:
+                picks[rng.randrange(len(picks))] = None
+            cfgs = [c.clone(timeframe=picks[j % len(picks)]) for j, c in enumerate(cfgs)]
+            tf = ladder[0]
         names = [c.build(standalone=False).name for c in cfgs]
-        pre, chunks = compositions(rng, n - 6, (0, 2, 5), 5)
+        pre, chunks = compositions(rng, n - 6, (0, 2, 5, 9), 5)
         prog = prog_for(pre, chunks)
         victim = rng.choice(names)
         a = n - 6
@@ -692,7 +706,9 @@ def fam_interference(rng, pid, count):
         prog.append(("append", a + 1, n))
         out.append({"id": f"{pid}/pair/{'+'.join(names)}/{t}", "fam": "interf", "obj": "hex", "inds": cfgs,
                     "names_fixed": True,
-                    "hex": {}, "stream": make_stream(rng, n, "mixed", tf=tf), "prog": prog,
+                    "hex": {}, "stream": make_stream(rng, n, "mixed", tf=tf,
+                                                     regular=(tf_regular(rng, tf) if tf and t % 3 == 2 else None)),
+                    "prog": prog,
                     "twins": ["alone", "reorder"] if not removed else ["alone"],
                     "member_forms": ["obj"] * len(cfgs),
                     "clause_props": {"exc": ["C13"], "alone": ["C13"], "reorder": ["C13"], "stage": ["C13"],
